@@ -46,6 +46,31 @@ def readEdges (s : String) : Option (List Edge) :=
 
 def showAbs (a : Abs) : String := s!"{a.variant}:{a.bits}"
 
+/-- every pair key (all four streets) that more than one unordered pair of buckets maps to, from the
+model's `pairKey ∘ absOf`: `key=s.i.j,s'.i'.j'` in ascending key order (`none` if there is no collision) -/
+def crossCollisions : String :=
+  let ks : Array (Nat × Nat × Nat × Nat) := Id.run do
+    let mut a := #[]
+    for s in [0:4] do
+      let n := nAbstractions s
+      for i in [0:n] do
+        for j in [i+1:n] do
+          a := a.push (pairKey (absOf s i) (absOf s j), s, i, j)
+    return a
+  let ks := ks.qsort (fun x y => x.1 < y.1 || (x.1 == y.1 && (x.2.1 < y.2.1 || (x.2.1 == y.2.1 && x.2.2.1 < y.2.2.1))))
+  let out : List String := Id.run do
+    let mut out : Array String := #[]
+    let mut cur : Option Nat := none
+    let mut grp : Array String := #[]
+    for k in ks do
+      if cur != some k.1 then
+        if grp.size > 1 then out := out.push (s!"{cur.getD 0}=" ++ ",".intercalate grp.toList)
+        cur := some k.1; grp := #[]
+      grp := grp.push s!"{k.2.1}.{k.2.2.1}.{k.2.2.2}"
+    if grp.size > 1 then out := out.push (s!"{cur.getD 0}=" ++ ",".intercalate grp.toList)
+    return out.toList
+  if out.isEmpty then "none" else ";".intercalate out
+
 def handle (line : String) : String :=
   match words line with
   | ["enc-card8", c] => match nat? c with | some c => s!"{cardToU8 c}" | none => "bad-op"
@@ -86,6 +111,7 @@ def handle (line : String) : String :=
   | ["abs-of-i64", i] => match int? i with
     | some i => showOpt (fun a => s!"{showAbs a} {showOpt toString (absStreet a)}") (absOfI64 i)
     | none => "bad-op"
+  | ["paircross"] => crossCollisions
   | ["pair", a, b] => match nat? a, nat? b with
     | some a, some b => match absOfU64 a, absOfU64 b with
       | some a, some b => let k := pairKey a b; s!"{k} {pairToI64 k} {pairOfI64 (pairToI64 k)}"
